@@ -639,7 +639,8 @@ impl DefaultFunction {
                 let arg1 = args[0].unwrap_byte_string()?;
                 let arg2 = args[1].unwrap_integer()?;
 
-                let index: i128 = arg2.try_into().unwrap();
+                // An index that does not even fit an i128 is out of bounds.
+                let index: i128 = arg2.try_into().unwrap_or(-1);
 
                 if 0 <= index && index < arg1.len() as i128 {
                     let ret = arg1[index as usize];
